@@ -1,4 +1,3 @@
 package main
 
-func c26Main(seed uint64, n int, replay string)      {}
 func c25Main(seed uint64, n int, replay string)      {}
